@@ -448,6 +448,111 @@ def cli_combos():
     save("cli_combos", ["C10", "C18", "C11", "C03"], steps)
 
 
+def fs_corpus2():
+    """the directory forms of the modifying commands, for the crash and fault enumeration"""
+    steps = head()
+    for p_, d in (("top.txt", "t\n"), ("dir/one.txt", "1\n"), ("dir/two.txt", "2\n"), ("dir/sub/three.txt", "3\n")):
+        steps.append(w(p_, d))
+    steps.append({"ev": "add", "paths": ["."]})
+    steps.append({"ev": "commit", "msg": "base"})
+    steps.append({"ev": "rm", "paths": ["dir"]})                       # a tracked directory: several entries, one index write
+    steps.append({"ev": "restores", "paths": ["dir"]})
+    steps.append({"ev": "restore", "paths": ["dir"]})                  # the directory is gone from the working tree
+    steps.append(w("dir/one.txt", "1b\n"))
+    steps.append(w("dir/new.txt", "n\n"))
+    steps.append({"ev": "add", "paths": ["dir"]})
+    steps.append({"ev": "rm", "paths": ["dir/sub", "top.txt"]})
+    steps.append({"ev": "commit", "msg": "second"})
+    steps.append({"ev": "config", "global": True, "key": "user.email", "value": "g@example.org"})
+    steps.append({"ev": "remove", "p": "dir/two.txt"})
+    steps.append({"ev": "add", "paths": ["dir/two.txt", "dir/one.txt"]})   # a deleted tracked path and an unchanged one
+    steps.append({"ev": "reset", "mode": "hard", "arg": esc("HEAD@{1}")})
+    save("fs_corpus2", ["C15", "C16"], steps)
+
+
+def restore_staged_dirs():
+    """restore --staged of a directory whose HEAD entries come before, inside and after a sub-directory"""
+    steps = head()
+    for p_ in ("docs/a-first.txt", "docs/intro.txt", "docs/pics/a.png", "docs/pics/sub/deep.png", "docs/z-last.txt", "docs.md", "docs-old/x", "main.go"):
+        steps.append(w(p_, p_ + "\n"))
+    steps.append({"ev": "add", "paths": ["."]})
+    steps.append({"ev": "commit", "msg": "base"})
+    steps.append({"ev": "rm", "paths": ["docs/intro.txt"]})
+    steps.append({"ev": "restores", "paths": ["docs"]})
+    steps.append({"ev": "lsfiles"})
+    steps.append({"ev": "rm", "paths": ["docs/a-first.txt", "docs/z-last.txt", "docs/pics/a.png"]})
+    steps.append({"ev": "restores", "paths": ["docs"]})
+    steps.append({"ev": "lsfiles"})
+    steps.append({"ev": "rm", "paths": ["docs"]})                      # `docs` next to docs.md and docs-old/
+    steps.append({"ev": "lsfiles"})
+    steps.append({"ev": "restores", "paths": ["docs/pics"]})
+    steps.append({"ev": "restores", "paths": ["docs"]})
+    steps.append({"ev": "lsfiles"})
+    steps.append({"ev": "restore", "paths": ["docs"]})
+    steps.append({"ev": "status"})
+    steps.append({"ev": "rm", "paths": ["docs-old", "docs.md"]})
+    steps.append({"ev": "restores", "paths": ["docs-old", "docs.md", "docs"]})
+    steps.append({"ev": "lsfiles"})
+    save("restore_staged_dirs", ["C09", "C04", "C06"], steps)
+
+
+def tracked_then_ignored():
+    """a file is tracked first and matched by an ignore rule later; argument lists that mix ignored, new and unknown paths"""
+    steps = head()
+    for p_ in ("main.txt", "trace.log", "a.txt"):
+        steps.append(w(p_, p_ + " v1\n"))
+    steps.append({"ev": "add", "paths": ["."]})
+    steps.append({"ev": "commit", "msg": "base"})
+    steps.append({"ev": "write", "p": ".goitignore", "data": "*.log\n", "old": False})
+    steps.append({"ev": "add", "paths": [".goitignore"]})
+    steps.append({"ev": "commit", "msg": "ignore logs"})
+    steps.append(w("trace.log", "v2\n"))
+    steps.append(w("other.log", "o\n"))
+    steps.append({"ev": "status"})
+    steps.append({"ev": "add", "paths": ["."]})
+    steps.append({"ev": "add", "paths": ["other.log"]})
+    steps.append({"ev": "add", "paths": ["trace.log"]})                 # tracked and ignored: must not be re-staged
+    steps.append({"ev": "lsfiles"})
+    steps.append({"ev": "status"})
+    steps.append(w("new.txt", "n\n"))
+    steps.append({"ev": "add", "paths": ["build.log", "new.txt", "nosuch.txt"]})   # refused as a whole: nosuch.txt is unknown
+    steps.append({"ev": "lsfiles"})
+    steps.append({"ev": "add", "paths": ["nosuch.txt", "new.txt"]})
+    steps.append({"ev": "add", "paths": ["new.txt", "build.log"]})
+    steps.append({"ev": "lsfiles"})
+    steps.append({"ev": "rm", "paths": ["a.txt", "nosuch.txt"]})                    # refused as a whole
+    steps.append({"ev": "rm", "paths": ["a.txt", "a.txt"]})
+    steps.append({"ev": "lsfiles"})
+    steps.append({"ev": "status"})
+    save("tracked_then_ignored", ["C17", "C18", "C04", "C06", "C13"], steps)
+
+
+def dup_args():
+    """the same path named twice, and a directory followed by one of its members, for add / rm / restore --staged"""
+    steps = head()
+    for p_ in ("a.txt", "b.txt", "c.txt", "d.txt", "d/x", "d/y", "e.txt"):
+        if p_ == "d.txt":
+            continue
+        steps.append(w(p_, p_ + "\n"))
+    steps.append({"ev": "add", "paths": ["."]})
+    steps.append({"ev": "commit", "msg": "base"})
+    steps.append({"ev": "rm", "paths": ["b.txt", "b.txt"]})
+    steps.append({"ev": "lsfiles"})
+    steps.append({"ev": "rm", "paths": ["d", "d/x"]})
+    steps.append({"ev": "lsfiles"})
+    steps.append({"ev": "restores", "paths": ["b.txt", "d"]})
+    steps.append({"ev": "restore", "paths": ["b.txt", "d"]})
+    steps.append({"ev": "remove", "p": "c.txt"})
+    steps.append({"ev": "add", "paths": ["c.txt", "c.txt"]})            # a deleted tracked file named twice
+    steps.append({"ev": "lsfiles"})
+    steps.append(w("new1", "n1"))
+    steps.append({"ev": "add", "paths": ["new1"]})
+    steps.append({"ev": "restores", "paths": ["new1", "new1"]})         # a newly added file unstaged twice
+    steps.append({"ev": "lsfiles"})
+    steps.append({"ev": "status"})
+    save("dup_args", ["C06", "C04", "C09"], steps)
+
+
 if __name__ == "__main__":
     name_lengths()
     big_index()
@@ -463,3 +568,7 @@ if __name__ == "__main__":
     revert_content()
     tz_pairs()
     cli_combos()
+    fs_corpus2()
+    restore_staged_dirs()
+    tracked_then_ignored()
+    dup_args()
